@@ -332,6 +332,22 @@ def run_plain_client(case: dict) -> CaseResult:
             break
     err = first_error(conn)
     want = "RequiresEncryptionAPIError" if first == 1 else "ProtocolAPIError"
+    if first >= 0x80:
+        # the indicator is read as a varint: a first byte with the continuation bit is judged once the varint is
+        # complete, and a non-canonical encoding of zero (80 80 00) is then a zero indicator.  The statement is about
+        # a device speaking the OTHER framing (first byte 0x01) / wrong marker bytes; it says nothing about padded
+        # zeros, so those -- and varints still incomplete -- carry no verdict here
+        val, shift, complete = 0, 0, False
+        for b in data:
+            val |= (b & 0x7F) << shift
+            shift += 7
+            if not b & 0x80:
+                complete = True
+                break
+        if not complete or val == 0:
+            res.classes = ["framing", "plain_client", "indicator_varint_without_verdict"]
+            res.info = {"first": first, "error": type(err).__name__}
+            return res
     if conn.packets:
         res.violations.append(Violation(ID, "c04:prefix:delivery-on-wrong-framing", f"first byte 0x{first:02x}"))
     if type(err).__name__ != want:
